@@ -161,8 +161,8 @@ def replay(rec) -> int:
 
 
 META = {
-    'technique': 'TLC-executed small-step model of Observable.subscribe / trampoline / subscription slots (Subscribe.tla) over enumerated pipeline shapes x scheduler configurations, each replayed on the real library under the same work budget',
-    'level': 'Subscribe.tla interprets subscribe(), the auto-detach observer, single-assignment slots, the current-thread trampoline and the subscribe/dispose wiring of the producers and combinators the property lists; TLC executes every enumerated shape x configuration x context, checks slot/grammar/release invariants, termination, an independently stated reference verdict (RefOK) and C14 for the rescheduling producers, and exports the verdict and counts. Every scenario is built on the real library (several API spellings, falsy elements) with counting never-ending sources under the same budget: a run that does not return normally within the budget is a violation of C14 (known findings: from_iterable starving the trampoline; explicit scheduler instances); disagreement with the model in verdict or counts is reported as model drift.',
-    'note': 'TLC 1.8; codec props/c14_common.py (kind -> API spelling); counting hooks: iterator / generate condition / module attributes reactivex.observable.range.range and reactivex.operators._repeat.infinite; work budget equals the model constant',
-    'ref': 'DESIGN.md 6 C14, App. A.5',
+    'technique': 'TLC-executed small-step model of Observable.subscribe / trampolines / subscription slots (Subscribe.tla) over enumerated and simulated pipeline shapes x scheduler configurations x subscription contexts, each replayed on the real library under the same work budget',
+    'level': 'Subscribe.tla interprets subscribe(), the auto-detach observer, single-assignment slots, the current-thread trampoline (singleton, explicit instance, immediate, virtual-time) and the subscribe/dispose wiring of the producers and combinators the property lists (plus zip, skip_until); TLC executes every enumerated shape x configuration x context (thorough: also random depth-3 pipelines by -simulate), checks slot/grammar/release invariants, that every scenario terminates, an independently stated reference verdict (RefOK), a scope predicate (can the pipeline terminate at all) and C14 itself for the rescheduling producers, and exports verdict and counts. Every scenario is built on the real library (several API spellings per node, plain and falsy elements, early-terminating operator or a user disposing inside on_next) with counting never-ending sources under the same budget: a run of an in-scope pipeline that does not return normally within the budget (confirmed with 8x) or delivers after its terminal is a violation of C14 (known findings: from_iterable starving the trampoline at the recorded positions; explicit scheduler instances); any disagreement with the model in verdict or exact counts is reported as model drift (none on the unchanged tree).',
+    'note': 'TLC 1.8; codec props/c14_common.py (kind -> API spelling); counting hooks: iterator / generate condition / module attributes reactivex.observable.range.range and reactivex.operators._repeat.infinite; work budget equals the model constant; SIGALRM watchdog for runs that neither return nor pull',
+    'ref': 'DESIGN.md 6 C14, App. A.5; notes/c14.md',
 }
